@@ -107,8 +107,11 @@ class SolvingWrapper(ScriptedWrapper):
         rng = np.random.default_rng(self.seed)
         n, m = Point.counter, Expression.counter
         A = rng.integers(-2, 3, size=(n, n)).astype(float)
-        self.G = A.T @ A
-        self.Fv = rng.integers(-3, 4, size=(m,)).astype(float)
+        # one scripted solution in eight is tiny (entries of order 2^-40), one in sixteen huge (2^40): what is kept, compared or
+        # thresholded with an ABSOLUTE tolerance between solves shows on those
+        sc = 2.0 ** -40 if self.seed % 8 == 5 else (2.0 ** 40 if self.seed % 16 == 6 else 1.0)
+        self.G = (A.T @ A) * sc
+        self.Fv = rng.integers(-3, 4, size=(m,)).astype(float) * sc
         self.optimal_G, self.optimal_F = self.G, self.Fv
         return "scripted", "none", float(self.Fv[self.objective.counter])
     def _recover_dual_values(self):
@@ -390,7 +393,7 @@ class Impl:
         for k, c in self.wrapper.sent:
             if k != "C": continue
             G, F, cons = expression_to_matrices(c.expression)
-            g = [("%s_%s" % (pad(i), pad(j)), showrat(G[i, j])) for i in range(G.shape[0]) for j in range(G.shape[1]) if G[i, j] != 0]
+            g = [("%s_%s" % (pad(i), pad(j)), showrat(G[i, j])) for i, j in zip(*np.nonzero(G))]
             f = [(pad(i), showrat(F[i])) for i in range(F.shape[0]) if F[i] != 0]
             items.append(canon(g) + canon(f) + showrat(cons))
         return " ".join(items)
@@ -529,6 +532,19 @@ from ocommon import CLASSES
 W = ["1", "2", "-1", "1/2", "4", "-2", "0", "1/4", "-1/2", "8", "1/8"]      # powers of two: products AND quotients stay exact in floating point (a 1e-17 residue of 1/3 or of 1/(3/4) changes which terms exist)
 
 
+SCALES = ["1/1048576", "1/17179869184", "1048576", "2147483648", "1099511627776", "1/1099511627776"]     # 2^-20, 2^-34, 2^20, 2^31, 2^40, 2^-40
+def big_mode(seed):
+    """one program in twelve is LARGE (tens of samples, directions, constraints, functions, metrics, blocks; LMIs of dimension
+    up to 9; Gram matrices of up to 140 rows): thresholds on counts (26 letters, 32 / 64 / 100 / 128 entries, two-digit
+    identifiers) are crossed.  A residue of the seed: any 12 consecutive programs contain one, no random draw is consumed."""
+    return seed % 12 == 7
+def scale_mode(seed):
+    """one program in ten has all its class parameters multiplied by one power of two between 2^-40 and 2^40 (step sizes
+    likewise): absolute tolerances, fixed-width number types and `isclose` defaults show on such programs only.  Any 60
+    consecutive programs contain every scale."""
+    return SCALES[(seed // 10) % len(SCALES)] if seed % 10 == 3 else None
+
+
 def det_choice(seed, tag, n):
     """a choice in range(n) derived from (seed, tag) without consuming the program's random stream"""
     import zlib
@@ -539,7 +555,12 @@ class Prog:
     def __init__(self, rnd):
         self.rnd = rnd; self.lines = ["reset"]; self.np = 0; self.ne = 0; self.nc = 0; self.nf = 0; self.nb = 0
         self.P, self.E, self.C, self.F, self.B = [], [], [], [], []
-        self.fcls = {}
+        self.fcls = {}; self.scale = None
+    def scaled(self, ps):
+        """the parameter tuple multiplied by the program's power of two (None: unchanged): `mu <= L` and every equality between
+        parameters are preserved, every coefficient the class computes is the unscaled one times a power of two"""
+        if self.scale is None: return ps
+        return [showrat(Fr(v) * Fr(self.scale)) for v in ps]
     def emit(self, l): self.lines.append(l)
     def newp(self): self.np += 1; n = "p%d" % self.np; self.P.append(n); return n
     def newe(self): self.ne += 1; n = "e%d" % self.ne; self.E.append(n); return n
@@ -548,7 +569,9 @@ class Prog:
     def decl(self, cls, reuse=None, inf=False, partition=None):
         n = self.newf(); ps = list(self.rnd.choice(CLASSES.get(cls, [[]])))
         if cls == "BlockSmoothConvexFunction": ps = self.rnd.choice([["1", "2", "4"], ["1", "1", "1"], ["2", "2", "1/2"]])[:partition[1]]
+        if cls == "BlockSmoothConvexFunction" and partition[1] > 3: ps = [["1", "2", "4", "1/2", "8", "1", "2", "1/4"][i_ % 8] for i_ in range(partition[1])]
         if inf: ps = ps[:-1]
+        ps = self.scaled(ps)
         r = self.rnd.random() < .5 if reuse is None else reuse
         import zlib
         # one declaration in four calls the class constructor directly (no random draw: the other choices of the program stay what they were)
@@ -563,6 +586,7 @@ class Prog:
         if not tups or cls == "BlockSmoothConvexFunction": return
         t = list(self.rnd.choice(tups))
         if inf: t = t[:-1]
+        t = self.scaled(t)
         for i, v in enumerate(t): self.emit("fn.setparam %s %d %s" % (f, i, v))
     def point(self):
         r = self.rnd.random()
@@ -597,16 +621,22 @@ def gen_class(seed):
     cls = rnd.choice(list(CLASSES) + ["BlockSmoothConvexFunction"])
     focus = os.environ.get("PEPV_CLS_FOCUS")
     if focus and rnd.random() < .5: cls = rnd.choice(focus.split(","))
-    for _ in range(rnd.randint(1, 2)): p.point()
+    big = big_mode(seed); p.scale = scale_mode(seed)
+    if seed % 4 == 3 and not focus:
+        # a systematic sweep besides the random programs: every class at every scale (25 classes x 6 powers of two from 2^-40 to
+        # 2^40 = 150 consecutive values of seed // 4), so that any run of 600 programs sees each class at each magnitude
+        allc = list(CLASSES) + ["BlockSmoothConvexFunction"]; k_ = seed // 4
+        cls = allc[k_ % len(allc)]; p.scale = SCALES[(k_ // len(allc)) % len(SCALES)]
+    for _ in range(rnd.randint(3, 10) if big else rnd.randint(1, 2)): p.point()
     if rnd.random() < .25: p.shared_labels = True          # several sample points carry the same label
     if cls == "BlockSmoothConvexFunction":
-        d = rnd.randint(1, 3); p.emit("%s b1 %d" % (rnd.choice(["part.decl", "part.decl", "part.new"]), d)); f = p.decl(cls, partition=("b1", d))
+        d = rnd.randint(4, 8) if big else rnd.randint(1, 3); p.emit("%s b1 %d" % (rnd.choice(["part.decl", "part.decl", "part.new"]), d)); f = p.decl(cls, partition=("b1", d))
     else:
         inf = cls in ("ConvexIndicatorFunction", "ConvexSupportFunction") and rnd.random() < .3
         f = p.decl(cls, inf=inf)
     if cls == "NonexpansiveOperator" and rnd.random() < .5:
         v = p.newp(); p.emit("pt.leaf %s" % v); p.emit("fn.setv %s %s" % (f, v))
-    p.sample_ops(f, rnd.randint(0, 5))
+    p.sample_ops(f, rnd.randint(11, 30) if big else rnd.randint(0, 5))
     if cls not in ("LinearOperator", "SymmetricLinearOperator", "SkewSymmetricLinearOperator") and rnd.random() < .25:
         # the function is also sampled through a multiple of itself (F = c * f): its samples are then scaled copies of F's
         # (a gradient G and G / c have the same leaves, different coefficients)
@@ -624,12 +654,17 @@ def gen_class(seed):
 
 def gen_collect(seed):
     rnd = random.Random(seed); p = Prog(rnd)
+    big = big_mode(seed); p.scale = scale_mode(seed)
     for _ in range(2): p.point()
+    if big:
+        # up to 90 further leaf points (Gram matrices of dimension 15 to 140: thresholds at 64, 100 and 128 are crossed)
+        extra = [0, 50, 25, 90][(seed // 12) % 4]
+        for _ in range(extra): n = p.newp(); p.emit("pt.leaf %s" % n)
     nb = rnd.randint(0, 1); nb2 = 0
     if nb:
-        d_ = rnd.randint(1, 3); p.emit("%s b1 %d" % (rnd.choice(["part.decl", "part.decl", "part.new"]), d_))
+        d_ = rnd.randint(2, 5) if big else rnd.randint(1, 3); p.emit("%s b1 %d" % (rnd.choice(["part.decl", "part.decl", "part.new"]), d_))
         if rnd.random() < .4: nb2 = 1; p.emit("part.decl b2 %d" % rnd.choice([d_, d_, rnd.randint(1, 3)]))     # a second, independent partition (often with as many blocks)
-    for _ in range(rnd.randint(1, 3)):
+    for _ in range(rnd.randint(4, 7) if big else rnd.randint(1, 3)):
         cls = rnd.choice(list(CLASSES))
         p.decl(cls)
     if nb and rnd.random() < .4: p.decl("BlockSmoothConvexFunction", partition=("b1", d_))
@@ -643,14 +678,14 @@ def gen_collect(seed):
             p.emit("fn.setname %s %s" % (f_, "obj" if same and i_ < 2 else "fun%d" % i_))
     for _ in range(rnd.randint(0, 2)):
         a, b = rnd.choice(p.F), rnd.choice(p.F); n = p.newf(); p.emit("fn.lin %s %s %s %s %s" % (n, rnd.choice(W), a, rnd.choice(W), b))
-    for _ in range(rnd.randint(2, 8)):
+    for _ in range(rnd.randint(14, 44) if big else rnd.randint(2, 8)):
         f = rnd.choice(p.F)
         if p.fcls.get(f) == "LinearOperator" and rnd.random() < .3:
             p.emit("fn.adjoint ft%s %s" % (f, f)); p.sample_ops("ft" + f, 1)
         else:
             p.sample_ops(f, 1)
     if nb:
-        for _ in range(rnd.randint(1, 3)):
+        for _ in range(rnd.randint(10, 13) if big else rnd.randint(1, 3)):
             x = rnd.choice(p.P); n = p.newp(); p.emit("part.block %s b1 %s 0" % (n, x))
         if rnd.random() < .4:
             x = rnd.choice(p.P); y = p.newp(); p.emit("pt.smul %s %s %s" % (y, rnd.choice(["2", "-1", "1/2"]), x))      # same leaves, other coefficients
@@ -666,7 +701,7 @@ def gen_collect(seed):
             wa = rnd.choice(W) if rnd.random() < .85 else rnd.choice(["1/1073741824", "1/1099511627776", "1048576", "-1/1073741824"])
             m = p.newe(); p.emit("ex.lin %s %s %s %s %s" % (m, wa, n, rnd.choice(W), other)); return m
         return n
-    for _ in range(rnd.randint(1, 3)):
+    for _ in range(rnd.randint(9, 28) if big else rnd.randint(1, 3)):
         e = expr(); c = p.newc()
         p.emit(rnd.choice(["cons.lec %s %s 1", "cons.gec %s %s 1/2", "cons.eqc %s %s 2"]) % (c, e)); p.emit("pep.addcons %s" % c)
         if rnd.random() < .25: p.emit("fn.addcons %s %s" % (rnd.choice(p.F), c))       # the same Constraint object registered twice: sent twice
@@ -683,6 +718,12 @@ def gen_collect(seed):
         e = expr(); c = p.newc(); p.emit("cons.lec %s %s 1" % (c, e)); p.emit("fn.addcons %s %s" % (n2, c))
     if nb and rnd.random() < .5:
         e = expr(); c = p.newc(); p.emit("cons.lec %s %s 1" % (c, e)); p.emit("part.addcons b1 %s" % c)        # a user constraint attached to the partition
+    if big:
+        # a large LMI (dimension 4 to 9), symmetric by construction (mirrored entries are the same object)
+        n_ = rnd.randint(4, 9); up = {}
+        for i_ in range(n_):
+            for j_ in range(i_, n_): up[(i_, j_)] = expr()
+        p.emit("pep.psd %d " % n_ + " ".join(up[(min(i_, j_), max(i_, j_))] for i_ in range(n_) for j_ in range(n_)))
     if rnd.random() < .5:
         cells = [expr() for _ in range(4)]; p.emit("pep.psd 2 " + " ".join(cells))
     if rnd.random() < .3:
@@ -701,7 +742,7 @@ def gen_collect(seed):
         p.emit("pep.addpsd %s" % nm if det_choice(seed, "lmi3where", 2) == 0 else "fn.addpsd %s %s" % (leaves[0], nm))
         e = expr(); c = p.newc(); p.emit("cons.lec %s %s 1" % (c, e)); p.emit("pep.addcons %s" % c)      # a constraint sent AFTER... (function constraints are)
         e = expr(); c = p.newc(); p.emit("cons.gec %s %s 1/4" % (c, e)); p.emit("fn.addcons %s %s" % (leaves[0], c))
-    for _ in range(rnd.randint(1, 2)): p.emit("pep.metric %s" % expr())
+    for _ in range(rnd.randint(4, 11) if big else rnd.randint(1, 2)): p.emit("pep.metric %s" % expr())
     p.emit("solve.collect"); p.emit("dump.sent"); p.emit("dump.counters")
     p.emit("dump.cvx %d" % rnd.randint(0, 10 ** 6))
     if rnd.random() < .5: p.emit("dump.cvxheur %d" % rnd.randint(0, 10 ** 6))
@@ -728,21 +769,23 @@ def gen_collect(seed):
 
 
 G = ["1", "1/2", "2", "1/4", "4", "-1", "1/8"]
+G_SCALED = ["1/1073741824", "1073741824", "1/1099511627776", "1048576", "1", "1/2"]       # 2^-30, 2^30, 2^-40, 2^20
 def gen_steps(seed):
     rnd = random.Random(seed); p = Prog(rnd)
+    big = big_mode(seed); p.scale = scale_mode(seed); G = G_SCALED if p.scale else globals()["G"]
     for _ in range(2): p.point()
     for _ in range(rnd.randint(1, 3)):
         p.decl(rnd.choice(["ConvexFunction", "SmoothConvexFunction", "SmoothStronglyConvexFunction", "ConvexIndicatorFunction", "ConvexLipschitzFunction", "MonotoneOperator"]))
     if rnd.random() < .6:
         a, b = rnd.choice(p.F), rnd.choice(p.F); n = p.newf(); p.emit("fn.lin %s %s %s %s %s" % (n, rnd.choice(W), a, rnd.choice(W), b))
-    for _ in range(rnd.randint(1, 8)):
+    for _ in range(rnd.randint(12, 30) if big else rnd.randint(1, 8)):
         f = rnd.choice(p.F); x0 = rnd.choice(p.P); r = rnd.random(); g = rnd.choice(G)
         if r < .15:
             x, gx = p.newp(), p.newp(); fx = p.newe(); p.emit("step.prox %s %s %s %s %s %s" % (x0, f, g, x, gx, fx))
         elif r < .3:
             x, d = p.newp(), p.newp(); fx = p.newe(); p.emit("step.inexgrad %s %s %s %s %d %s %s %s" % (x0, f, g, rnd.choice(G), rnd.random() < .5, x, d, fx))
         elif r < .42:
-            dirs = [rnd.choice(list(p.P)) for _ in range(rnd.randint(0, 2))]
+            dirs = [rnd.choice(list(p.P)) for _ in range(rnd.randint(24, 40) if big else rnd.randint(0, 2))]
             x, gx = p.newp(), p.newp(); fx = p.newe(); p.emit("step.els %s %s %s %s %s %s" % (x0, f, x, gx, fx, " ".join(dirs)))
         elif r < .52:
             x, gx = p.newp(), p.newp(); fx = p.newe(); p.emit("step.linopt %s %s %s %s %s" % (x0, f, x, gx, fx))
@@ -764,7 +807,15 @@ def gen_steps(seed):
 
 def gen_resolve(seed):
     rnd = random.Random(seed); p = Prog(rnd)
+    big = big_mode(seed)
     for _ in range(2): p.point()
+    if big:
+        # long combinations (9 to 40 leaves in one decomposition): averaged iterates, Lyapunov sums
+        for _ in range(rnd.randint(9, 40)): n = p.newp(); p.emit("pt.leaf %s" % n)
+        acc = p.P[0]
+        for x_ in p.P[2:]:
+            n = p.newp(); p.emit("pt.lin %s 1 %s %s %s" % (n, acc, rnd.choice(["1", "1/2", "-1", "2"]), x_)); acc = n
+        p.P = p.P[:2] + [acc] + p.P[2:6]
     for _ in range(rnd.randint(1, 2)):
         p.decl(rnd.choice(["SmoothStronglyConvexFunction", "ConvexFunction", "SmoothConvexFunction", "MonotoneOperator", "ConvexQGFunction"]))
     for _ in range(rnd.randint(1, 4)): p.sample_ops(rnd.choice(p.F), 1)
@@ -860,16 +911,31 @@ def gen_resolve(seed):
 
 def gen_oracle(seed):
     rnd = random.Random(seed); p = Prog(rnd)
-    for _ in range(rnd.randint(2, 3)):
+    big = big_mode(seed); p.scale = scale_mode(seed)
+    # scaled programs: step sizes and weights of 2^-30, 2^-40, 2^30 besides the usual ones (x1 = x0 - 2^-30 g must stay another point than x0)
+    W = globals()["W"] + ["1/1073741824", "-1/1099511627776", "1073741824", "1/1073741824"] * 2 if p.scale else globals()["W"]
+    for _ in range(rnd.randint(5, 11) if big else rnd.randint(2, 3)):
         p.decl(rnd.choice(["ConvexFunction", "SmoothConvexFunction", "MonotoneOperator", "LipschitzOperator", "StronglyConvexFunction"]))
     for _ in range(2): p.point()
-    for _ in range(rnd.randint(4, 25)):
+    if big:
+        # a finite sum of all the declared functions (5 to 11 terms), some of them sampled at the point BEFORE the sum is
+        leaves = list(p.F); x_ = p.P[0]
+        for f_ in rnd.sample(leaves, rnd.randint(0, len(leaves) - 1)): p.sample_ops(f_, 1) if rnd.random() < .5 else (p.emit("fn.gradient %s %s %s" % (f_, x_, p.newp())))
+        acc = leaves[0]
+        for f_ in leaves[1:]:
+            n = p.newf(); p.emit("fn.lin %s 1 %s %s %s" % (n, acc, rnd.choice(["1", "1", "2", "1/2"]), f_)); acc = n
+        g_, v_ = p.newp(), p.newe(); p.emit("fn.oracle %s %s %s %s" % (acc, x_, g_, v_))
+        for f in p.F: p.emit("dump.fn %s" % f); p.emit("check.afn %s" % f)
+    for _ in range(rnd.randint(30, 70) if big else rnd.randint(4, 25)):
         r = rnd.random()
         if r < .2:
             a, b = rnd.choice(p.F), rnd.choice(p.F); n = p.newf()
             if rnd.random() < .35: p.emit("%s %s %s %s" % (rnd.choice(["fn.add", "fn.add", "fn.sub"]), n, a, rnd.choice([a, b])))   # f + f, f - f, f + g written directly
             else: p.emit("fn.lin %s %s %s %s %s" % (n, rnd.choice(W), a, rnd.choice(W), b))
-        elif r < .3: p.point()
+        elif r < .3:
+            if p.scale and len(p.P) >= 2:
+                a, b = rnd.choice(p.P), rnd.choice(p.P); n = p.newp(); p.emit("pt.lin %s 1 %s %s %s" % (n, a, rnd.choice(W), b))
+            else: p.point()
         elif r < .35:
             a = rnd.choice(p.P); n = p.newp(); p.emit("pt.smul %s %s %s" % (n, rnd.choice(W), a))
         else: p.sample_ops(rnd.choice(p.F), 1)
@@ -884,13 +950,21 @@ def gen_tree(seed):
     """random operator trees over points and expressions (C06): every object is dumped when it is
     created and again at the end (operands must not have changed)"""
     rnd = random.Random(seed); p = Prog(rnd)
-    for _ in range(rnd.randint(2, 4)):
+    big = big_mode(seed)
+    for _ in range(rnd.randint(9, 40) if big else rnd.randint(2, 4)):
         n = p.newp(); p.emit("pt.leaf %s" % n)
     for _ in range(rnd.randint(1, 2)):
         n = p.newe(); p.emit("ex.leaf %s" % n)
     if rnd.random() < .3: p.P.append("nullP")        # the module-level empty combinations are legitimate operands (accumulators)
     if rnd.random() < .3: p.E.append("nullE")
-    for _ in range(rnd.randint(4, 22)):
+    if big:
+        # long combinations the way an averaged iterate or a Lyapunov function is written: a running sum over ALL the points
+        # (9 to 40 leaves in one decomposition), its square (up to 820 Gram entries in one expression)
+        acc = p.P[0]
+        for x_ in [x_ for x_ in p.P[1:] if x_ != "nullP"]:
+            n = p.newp(); p.emit("pt.lin %s 1 %s %s %s" % (n, acc, rnd.choice(TW[:10]), x_)); acc = n
+        p.emit("dump.pt %s" % acc); n = p.newe(); p.emit("ex.sq %s %s" % (n, acc)); p.emit("dump.ex %s" % n)
+    for _ in range(rnd.randint(40, 90) if big else rnd.randint(4, 22)):
         r = rnd.random()
         if r < .10: a, b = rnd.choice(p.P), rnd.choice(p.P); n = p.newp(); p.emit("pt.add %s %s %s" % (n, a, b)); p.emit("dump.pt %s" % n)
         elif r < .20: a, b = rnd.choice(p.P), rnd.choice(p.P); n = p.newp(); p.emit("pt.sub %s %s %s" % (n, a, b)); p.emit("dump.pt %s" % n)
@@ -950,6 +1024,7 @@ def gen_tree(seed):
     return p.lines
 
 
+LAST_TAINTED = set()
 _PAIR = re.compile(r"([A-Za-z0-9_]+):(-?\d+(?:/\d+)?)(?=[,}])")
 _EX_CALLS = None
 def example_calls():
@@ -1085,7 +1160,7 @@ def dyadic_program(lines):
     return True
 
 
-def same(model, impl, strict=True, scale=0.0):
+def same(model, impl, strict=True, scale=0.0, vfloor=1.0):
     """compare one model line with one implementation line.  If every coefficient the (exact) model
     prints is a double, floating point was exact on this line and the two must agree exactly (up to
     the printing of -0/0); otherwise rounding happened in the implementation and the comparison is
@@ -1094,13 +1169,13 @@ def same(model, impl, strict=True, scale=0.0):
     mo, io_ = re.fullmatch(r"ok (-?\d+(?:/\d+)?)", model), re.fullmatch(r"ok (-?\d+(?:/\d+)?)", impl)
     if mo and io_:
         x, y = float(Fr(mo.group(1))), float(Fr(io_.group(1)))
-        return abs(x - y) <= 1e-9 * max(1.0, abs(x), abs(y))
+        return abs(x - y) <= 1e-9 * max(vfloor, abs(x), abs(y))
     _M = r"ok (-?\d+(?:/\d+)?(?:[,;]-?\d+(?:/\d+)?)+)"
     mm, im = re.fullmatch(_M, model), re.fullmatch(_M, impl)
     if mm and im:            # a matrix of values (PSDMatrix.eval)
         if re.sub(r"[^,;]", "", model) != re.sub(r"[^,;]", "", impl): return False
         xs = [float(Fr(t)) for t in re.split(r"[,;]", mm.group(1))]; ys = [float(Fr(t)) for t in re.split(r"[,;]", im.group(1))]
-        big = max([abs(v) for v in xs + ys] + [1.0])
+        big = max([abs(v) for v in xs + ys] + [vfloor])
         return all(abs(x - y) <= 1e-9 * big for x, y in zip(xs, ys))
     mc = [Fr(v) for _, v in _PAIR.findall(model)]
     if strict and mc and all(_exact_double(c) for c in mc):
@@ -1162,7 +1237,7 @@ def run_programs(progs):
     # once the exact model has produced a coefficient that is not a double, the implementation has rounded:
     # from there on this program is compared with tolerance (later coefficients may be doubles again without
     # the float computation having been exact)
-    tainted = set(); bad = []; scale = {}
+    tainted = set(); bad = []; scale = {}; vfl = {}
     def pow2(fr):
         fr = abs(fr)
         return fr != 0 and (fr.numerator & (fr.numerator - 1)) == 0 and (fr.denominator & (fr.denominator - 1)) == 0
@@ -1177,13 +1252,20 @@ def run_programs(progs):
             if out[i] != "probe exact": tainted.add(sd)
             if not out[i].startswith("probe "): bad.append(i)
             continue
-        if not same(out[i], exp[i], strict.get(sd, False) and sd not in tainted, scale.get(sd, 0.0)): bad.append(i)
+        if all_lines[i].startswith(("solve.ok ", "solve.okp ")) and " G=" in all_lines[i]:
+            # values evaluated after a scripted solve are compared relatively to the magnitude of that solution (a solution of
+            # order 2^-40 is not "equal to anything" because the absolute floor is 1e-9)
+            ent = [abs(float(Fr(t))) for t in re.findall(r"-?\d+(?:/\d+)?", all_lines[i].split(" G=", 1)[1])]
+            vfl[sd] = max(ent) if ent and max(ent) > 0 else 1.0
+        if not same(out[i], exp[i], strict.get(sd, False) and sd not in tainted, scale.get(sd, 0.0), vfl.get(sd, 1.0)): bad.append(i)
         coefs = [Fr(v) for _, v in _PAIR.findall(out[i])]
         if coefs: scale[sd] = max(scale.get(sd, 0.0), max(abs(float(c)) for c in coefs if abs(c) < 10 ** 300))
         if sd not in tainted and any(not _exact_double(c) for c in coefs): tainted.add(sd)
     if len(out) != len(exp):
         bad.append(n - 1 if n else 0)
     exact = sum(1 for i in range(n) if out[i] == exp[i])
+    global LAST_TAINTED
+    LAST_TAINTED = set(tainted) | {sd for sd, ok in strict.items() if not ok}
     return all_lines, exp, out, idx, bad, exact
 
 
